@@ -11,12 +11,22 @@ Tie:   T — codes, option numbers, thresholds `<=`/`<`, Block1 addend, shortcut
            connections against scripted peers — interleaved connections, long transfers, one-way writes with No-Response,
            early negotiation with every wire encoding, observe x block-wise x request options x ETag placement.
            Thorough adds end-to-end Post/Get over the in-memory UDP and TCP connections (judge only).
+           Tenth seeded round: `shared_prefix_cases` (token re-use after an abandoned transfer — cancelled call without deadline,
+           ops `do <tok> -` / `cancel <tok>`, Model/BlockwiseCancel.lean + Props/C04Cancel.lean — for a representation sharing its
+           first one or two whole blocks, body specification `<s1>:<k>:<s2>`); `csm_level` (TestC04Csm, both tiers: stream peers
+           announcing Block-Wise-Transfer with / without Max-Message-Size x limits x SZX 0..6 / BERT, frame budget -> `hang`).
        Observe branch (Props/C04Observe.lean over Model/BlockwiseObserve.lean): block-wise notifications are part of X — the
            real layer of side A gets an observation table (`observe`), B pushes the notification through its layer and serves
            the follow-up GETs from its `resource`; message.GetToken is scripted (`fresh <tok>`, else 0xF0F0000000000000 + i:
            the harness replaces crypto/rand.Reader while a case runs), so every line is compared literally
            (`observe_blockwise_cases`: fault-free exponent pairs x boundary sizes, unregistered observation, exhaustive single
            (thorough: double) faults, token clash, two notifications in flight, abandoned + expiry, stray blocks, random faults).
+       Conservativity (Props/C04Conserv.lean): the driver runs every history through `handleO` / `OWorld`; `handleO_eq_handle`,
+           `runO_eq_run`, `oworld_run_eq_world_run` prove that this IS `handle` / `World` of the theorems above wherever the
+           Observe branch is not involved (exact side conditions), `once_O` … `system_safe_O` restate the headline theorems for it.
+       Props/C04ObserveRuns.lean: block-wise notifications under ARBITRARY arrivals — frame of one `handleO` call, every
+           interleaving of two fetches (`notifications_do_not_mix`), body-exactness under the fresh key (`nothing_before_last_block`).
+       Props/C04Progress.lean (auxiliary): `Do` over ALL rounds by induction — `upload_progress`, `download_progress`, `do_progress`.
 """
 import glob
 import json
@@ -26,7 +36,7 @@ import re
 
 from . import common
 
-MODULES = ["CoapVerif.Props.C04", "CoapVerif.Props.C04Observe"]
+MODULES = ["CoapVerif.Props.C04", "CoapVerif.Props.C04Observe", "CoapVerif.Props.C04Conserv", "CoapVerif.Props.C04Cancel", "CoapVerif.Props.C04ObserveRuns", "CoapVerif.Props.C04Progress"]
 GENERATED = ["Blockwise.lean", "BlockwiseXfer.lean"]
 
 POST, PUT, GET, CHANGED, CONTENT = 2, 3, 1, 68, 69
@@ -311,6 +321,9 @@ def gen_cases(ctx, driver):
     # ---- 3d. a transfer abandoned after k blocks, its entry expired but not (or: and) swept, then a new transfer with the
     #          same token and another body
     for c in stale_entry_cases(rng, thorough):
+        cases.append(c)
+    # ---- 3d'. the same, the two representations SHARING their first one or two whole blocks (tenth seeded round)
+    for c in shared_prefix_cases(rng, thorough):
         cases.append(c)
     # ---- 3e. transfers abandoned on layers with transfer timeout 0: nothing may be held after the next sweep (clause `leak`)
     for c in zero_timeout_cases(rng, thorough):
@@ -620,6 +633,62 @@ def stale_entry_cases(rng, thorough):
             lines += ["reg A %d %d %d %d - %s" % (tok, POST, ln + rng.choice([0, 2]), 100 + rng.randrange(100), REQ_OTHER), "write A %d" % tok]
             lines += ["net deliver"] * (2 * (ln // u + 4) + 6)
             out.append(Case(lines + ["end"], {"token-reuse-sender", "resend-while-held", "style-write", "dir-up"}, True))
+    return out
+
+
+def shared_prefix_cases(rng, thorough):
+    """A token is used again WITHIN the transfer timeout of an abandoned transfer, for a representation that shares a prefix
+    of whole blocks with the abandoned one and differs later (a resource of which only the tail changed; a log that grew; a
+    form re-submitted with another last field): same first block, or same first two blocks, then other bytes — same length
+    (every option of the first block, Size1 / Size2 included, is then equal too), longer, shorter.  No ETag: nothing but
+    "a first block restarts" (RFC 7959 section 2.5) tells the receiver that the held blocks belong to something else.
+    Downloads: the first call has no deadline and is cancelled (`do <tok> -` … `cancel <tok>`: the reassembly entry lives for
+    the layer's transfer timeout), or it has one and the second call starts at that very instant (the call has returned, its
+    entry is not yet expired); the server side (short timeout) has forgotten the first response.  Uploads: the first call
+    ends by its deadline, the server's reassembly entry lives on.  Body specification `<s1>:<k>:<s2>`: see Driver/C04.lean."""
+    out = []
+    cfgs = [(0, 80, 0, 80), (1, 96, 0, 80), (0, 80, 2, 128), (2, 128, 2, 128), (6, 1100, 3, 192)]
+    if not thorough:
+        cfgs = cfgs[:3]
+    for (sa, ma, sb, mb) in cfgs:
+        u = size(min(sa, sb))
+        for k in (2, 3):                    # blocks the receiver holds when the first transfer is abandoned
+            for j in (1, 2):                # whole blocks the two representations share
+                for shape in ("same-length", "longer", "shorter"):
+                    # -- downloads
+                    first = size(sb)        # B's first block comes in B's size, the rest in the negotiated one
+                    shared = first + (j - 1) * u
+                    ln1 = first + (k + 1) * u + 5
+                    ln2 = {"same-length": ln1, "longer": ln1 + u + 3, "shorter": max(shared + 2, ln1 - u - 2)}[shape]
+                    for mode in ("cancel", "deadline-now"):
+                        tok = rng.choice([7, tokn("0001"), rng.randrange(1, 1 << 40)])
+                        s1, s2 = rng.randrange(100), 100 + rng.randrange(100)
+                        etag = "-"
+                        lines = [cfg_line(sa, ma, sb, mb, 3000, 50),
+                                 "reg A %d %d 0 0 - %s" % (tok, GET, REQ_OTHER),
+                                 "reg B %d %d %d %d %s %s" % (tok, CONTENT, ln1, s1, etag, RESP_OTHER),
+                                 "do %d %s" % (tok, "-" if mode == "cancel" else "100")]
+                        lines += ["net deliver"] * (2 * k) + ["net drop"] * 3
+                        if mode == "cancel":
+                            lines += ["cancel %d" % tok, "sleep %d" % rng.choice([60, 150, 1000])] + (["tick B"] if rng.random() < 0.5 else [])
+                        else:
+                            lines += ["sleep 100"]
+                        lines += ["reg B %d %d %d %d:%d:%d %s %s" % (tok, CONTENT, ln2, s1, shared, s2, etag, RESP_OTHER), "do %d 20000" % tok]
+                        lines += ["net deliver"] * (2 * (ln2 // u + 3) + 4)
+                        out.append(Case(lines + ["end"], {"token-reuse", "shared-prefix", "shared-prefix-%d" % j, "abandon-" + mode, "dir-down", "time"}, True))
+                    # -- uploads
+                    first = size(sa)
+                    shared = first + (j - 1) * u
+                    ln1 = first + (k + 1) * u + 5
+                    ln2 = {"same-length": ln1, "longer": ln1 + u + 3, "shorter": max(shared + 2, ln1 - u - 2)}[shape]
+                    code = rng.choice([POST, PUT])
+                    tok = rng.choice([7, tokn("0100"), rng.randrange(1, 1 << 40)])
+                    s1, s2 = rng.randrange(100), 100 + rng.randrange(100)
+                    lines = [cfg_line(sa, ma, sb, mb, 3000, 3000)] + xfer_lines(tok, code, ln1, s1, CHANGED, 3, 1, tmo=100)
+                    lines += ["net deliver"] * (2 * k - 1) + ["net drop"] * 3 + ["sleep 150"]
+                    lines += ["reg A %d %d %d %d:%d:%d - %s" % (tok, code, ln2, s1, shared, s2, REQ_OTHER), "do %d 20000" % tok]
+                    lines += ["net deliver"] * (2 * (ln2 // u + 3) + 4)
+                    out.append(Case(lines + ["end"], {"token-reuse", "shared-prefix", "shared-prefix-%d" % j, "dir-up", "time"}, True))
     return out
 
 
@@ -1075,6 +1144,7 @@ def explore(ctx, art):
     glue_level(ctx, art, "TestC04Pool", "pool")
     glue_level(ctx, art, "TestC04Long", "long")
     glue_level(ctx, art, "TestC04Observe", "observe")
+    csm_level(ctx, art)
     if ctx.tier == "thorough":
         conn_level(ctx, art)
         with common.Lock():
@@ -1130,7 +1200,7 @@ def guard_level(ctx, art, exe=None, realtime=False, tag="guard"):
     ctx.cov[tag + "_scenarios"] = n
 
 
-GLUE_FILES = {"TestC04Long": "conn_test.go", "TestC04Pool": "pool_test.go", "TestC04Observe": "observe_test.go"}
+GLUE_FILES = {"TestC04Long": "conn_test.go", "TestC04Csm": "conn_test.go", "TestC04Pool": "pool_test.go", "TestC04Observe": "observe_test.go"}
 
 
 def glue_level(ctx, art, test, tag, prop="C04", clause="exact", only_prefix=None):
@@ -1170,6 +1240,52 @@ def glue_level(ctx, art, test, tag, prop="C04", clause="exact", only_prefix=None
     ctx.cov[tag + "_scenarios"] = len(out)
     if tag in ("udpdial", "discover") and all("skipped" in l for l in out):
         ctx.notes.append("udp.Dial scenarios skipped: no loopback socket in this environment")
+
+
+def csm_level(ctx, art):
+    """block-wise over a stream towards peers that announce Block-Wise-Transfer with / without / separately from
+    Max-Message-Size (harness/c04/conn_test.go TestC04Csm): own and peer limits equal / smaller / larger x SZX 0..6 and BERT x
+    get / post / both / one-way write through a relay that counts frames.  The transfer completes with the exact body or
+    fails; an exchange that is still exchanging frames after three times what its bodies need is a `hang`."""
+    import subprocess
+    outp = os.path.join(ctx.work, "csm.out")
+    if os.path.exists(outp):
+        os.remove(outp)
+    env = dict(os.environ, VERIF_OUT=outp, VERIF_SEED=str(ctx.seed), VERIF_TIER=ctx.tier)
+    env.pop("VERIF_SCENARIO", None)
+    try:
+        p = subprocess.run([art["test"], "-test.run", "^TestC04Csm$", "-test.timeout", "300s"], cwd=ctx.work, env=env,
+                           stdout=subprocess.PIPE, stderr=subprocess.STDOUT, text=True, timeout=400)
+    except subprocess.TimeoutExpired:
+        ctx.broken.append(("correspondence", "TestC04Csm timed out", ""))
+        return
+    out = open(outp).read().splitlines() if os.path.exists(outp) else []
+    if p.returncode != 0 or not out:
+        ctx.broken.append(("correspondence", "TestC04Csm failed rc=%d" % p.returncode, p.stdout[-2000:]))
+        return
+    seen_sig = {}
+    for l in out:
+        f = l.split()
+        res = f[-1].split("=", 1)[1]
+        bert = "bert" if "7" in (f[3], f[4]) else "szx0-6"
+        ctx.count("csm-%s-%s-%s" % (f[1], bert, res.split("-")[0]))
+        if res.startswith("violates"):
+            clause = "hang" if res.startswith("violates-hang") else "oneway" if "one-way" in res else "exact"
+            sig = "C04:csm:%s: %s" % (bert, re.sub(r"\d+", "N", res)[:90])
+            seen_sig[sig] = seen_sig.get(sig, 0) + 1
+            if seen_sig[sig] > 1 or len(seen_sig) > 4:
+                continue
+            scen = " ".join(f[1:-1])
+            ctx.violations.append(common.Violation(
+                clause, sig,
+                "TestC04Csm (peer's CSM to the caller: %s, to the peer: %s; SZX %s/%s, max message size %s/%s; %s of %s + %s bytes): %s"
+                % (f[1], f[2], f[3], f[4], f[5], f[6], f[7], f[8], f[9], res),
+                {"input": ["go test -run TestC04Csm (harness/c04/conn_test.go)"], "scenario": scen, "test": "TestC04Csm", "seed": ctx.seed,
+                 "observed": l, "expected": "a fault-free block-wise exchange over a stream completes with exactly the supplied bodies, or ends "
+                                            "with an error - within a number of frames proportional to the number of blocks"}))
+    if seen_sig:
+        ctx.notes.append("TestC04Csm failing scenarios by signature: %s" % sorted(seen_sig.items()))
+    ctx.cov["csm_scenarios"] = len(out)
 
 
 def conn_level(ctx, art):
